@@ -1,1 +1,372 @@
-/- C12: property theorems go here (only property theorems, non-vacuity examples, #print axioms). -/
+import StorageModel.C12.Clauses
+import StorageModel.C12.Parens
+import StorageModel.C12.Exact
+import StorageModel.C12.Reader
+import StorageModel.C12.Fix
+import StorageModel.C12.LexProofs
+import StorageModel.Generated.Grammar
+/-
+  C12 — Boolean connectives group as written: parentheses, precedence, case, spacing.
+
+  "Parentheses group sub-expressions, chains of a single connective are associative, `not (P)`
+  is the negation of P, and `and` binds tighter than `or` wherever the two are mixed without
+  parentheses, independent of the order in which they appear.  Keywords and word operators are
+  case-insensitive, and adding whitespace where whitespace is allowed or wrapping a
+  sub-expression in redundant parentheses never changes a query's result."
+
+  Quantifier: all boolean skeletons (all and/or/not/parenthesis arrangements) × all truth
+  assignments; all case / whitespace / parenthesis re-spellings.
+
+  Objects (StorageModel/C12/*.lean):
+    `W α`       a skeleton as written; `W.render` is a bijection onto the well-formed token lists
+                (`parse_render`, `parse_sound`, `readTokens_render`), so "∀ w : W α" is "for every
+                boolean skeleton", with any number of atoms and any nesting;
+    `code ts`   = `untypedL L G ts`: model of zitiql.Parse + ToBoltListener on a token list,
+                instantiated with what /verif/extract reads from the source on every run:
+                `G = Generated.boolExprParser` (the Precpred / boolExpr(k) numbers of the generated
+                `boolExpr(_p int)`), `L = Generated.boolListener` (how ExitAndExpr / ExitOrExpr /
+                ExitNotExpr / ExitGroup are written); `query L G` adds TypeTransformBool;
+                `T.eval` is EvalBool;
+    `W.readS`   the intended reading: `and` over `or`, parentheses are units, `not` loosest
+                (`spec_is_dnf`: true iff some `or`-piece has all its `and`-units true).
+
+  Every clause is proved for every skeleton (`and_over_or` is `code (render w) = some (readS w)`).
+  The generated parser still hands each operator the whole rest of its level (`W.readM`); it is
+  the listener of fix c2dd0be that restores the grouping.  The section at the end keeps the
+  listener of the pinned tree and shows what was wrong with it (`pinned_listener_violates`,
+  `pinned_listener_exact`, `pinned_listener_fails_exactly`).
+-/
+namespace StorageModel.Properties.C12
+open StorageModel.C12 StorageModel.Generated
+
+abbrev G : ParserNums := Generated.boolExprParser
+abbrev L : ListenerShape := Generated.boolListener
+
+variable {α : Type}
+
+/-- the model of zitiql.Parse + listener for the code that exists now -/
+abbrev code (ts : List (Tok α)) : Option (U α) := untypedL L G ts
+
+/-! ## obligations on regenerated data -/
+
+/-- The numbers found in `boolExpr(_p int)` of zitiql_parser.go are the ones ANTLR derives from
+    the alternatives of `boolExpr` in ZitiQl.g4 (so the .g4 file still describes the parser). -/
+theorem parser_numbers_match_grammar : antlrNumbers Generated.boolExprAlts = some Generated.boolExprParser := by
+  decide
+
+/-- With these numbers no precedence predicate can ever fail: `boolExpr` is only entered at
+    levels ≤ both operator precedences (each operator gets the rest of its level). -/
+theorem parser_is_greedy : Greedy Generated.boolExprParser := by decide
+
+/-- `ExitAndExpr` re-associates, `ExitGroup` marks, `ExitOrExpr` / `ExitNotExpr` are plain, and
+    `.grouped` is mentioned exactly twice in package ast — the listener the model interprets. -/
+theorem listener_is_repaired : Generated.boolListener = repairedShape := by decide
+
+/-- AND OR NOT TRUE FALSE are spelled with the case-insensitive letter fragments; WS and the
+    parentheses are the expected characters. -/
+theorem keywords_are_expected :
+    Generated.keywords = expectedKeywords ∧ Generated.wsChars = [' ', '\n', '\t', '\r'] ∧
+      Generated.lparenChars = ['('] ∧ Generated.rparenChars = [')'] := by decide
+
+theorem code_eq (ts : List (Tok α)) : code ts = untypedFixed G ts := by
+  simp [code, untypedL, listener_is_repaired]
+
+/-! ## the model on every token list -/
+
+/-- **Every skeleton is accepted and read as intended** (this is `and_over_or` in tree form). -/
+theorem parse_render (w : W α) : code w.render = some w.readS := by
+  rw [code_eq]; exact fixed_listener_reads_intended G parser_is_greedy w
+
+/-- Nothing else is accepted: an accepted token list is a skeleton, and its tree is the
+    intended one. -/
+theorem parse_sound (ts : List (Tok α)) (u : U α) (h : code ts = some u) :
+    ∃ w : W α, ts = w.render ∧ u = w.readS := by
+  have hp : ∃ evs, parseTokens G ts = some evs := by
+    rw [code_eq] at h
+    simp only [untypedFixed] at h
+    split at h
+    · simp at h
+    · next evs hp => exact ⟨evs, hp⟩
+  obtain ⟨evs, hp⟩ := hp
+  obtain ⟨w, rfl⟩ := parseTokens_sound G ts evs hp
+  refine ⟨w, rfl, ?_⟩
+  rw [parse_render w] at h
+  exact (Option.some.inj h).symm
+
+/-- The listener's stack discipline fits the generated parser: after the walk of any accepted
+    input the stack holds exactly one node (no operand is dropped, no underflow), although
+    `AndExpr`/`OrExpr` contexts could syntactically have more than two operands. -/
+theorem stack_discipline (ts : List (Tok α)) (evs : List (Ev α)) (h : parseTokens G ts = some evs) :
+    ∃ u, runFixed evs [] = some [u] := by
+  obtain ⟨w, rfl⟩ := parseTokens_sound G ts evs h
+  rw [parseTokens_render G parser_is_greedy w] at h
+  cases h
+  exact ⟨w.fixM, runFixed_evM w []⟩
+
+/-- The whole of `ast.Parse` on a skeleton is the spec: a type error iff some symbol is not
+    boolean, otherwise a typed tree that evaluates like the intended reading. -/
+theorem pipeline_reads (isBool : α → Bool) (w : W α) :
+    query L G isBool w.render = specQuery isBool w.render ∧
+    (w.allBool isBool = false → query L G isBool w.render = .typeError) ∧
+    (w.allBool isBool = true → ∃ t, query L G isBool w.render = .ok t ∧ ∀ env, t.eval env = w.readS.eval env) := by
+  have hc : untypedL L G w.render = some w.readS := parse_render w
+  have hq_none : transform isBool w.readS = none → query L G isBool w.render = .typeError := by
+    intro h; simp only [query, hc, h]
+  have hq_some : ∀ t, transform isBool w.readS = some t → query L G isBool w.render = .ok t := by
+    intro t h; simp only [query, hc, h]
+  refine ⟨?_, ?_, ?_⟩
+  · simp only [specQuery, readTokens_render']
+    cases ht : transform isBool w.readS with
+    | none => rw [hq_none ht]
+    | some t => rw [hq_some t ht]
+  · intro h
+    exact hq_none ((transform_none_iff isBool _).2 (by rw [allBool_readS]; exact h))
+  · intro h
+    cases ht : transform isBool w.readS with
+    | none =>
+      have := (transform_none_iff isBool _).1 ht
+      rw [allBool_readS, h] at this
+      cases this
+    | some t => exact ⟨t, hq_some t ht, fun env => transform_eval isBool env _ t ht⟩
+
+/-! ## clause 4 (headline): `and` binds tighter than `or`, independent of the order -/
+
+/-- For every skeleton and every truth assignment the code's answer is the intended one:
+    `or` splits the level, `and` joins inside the pieces, wherever they occur. -/
+theorem and_over_or (w : W α) (env : α → Bool) :
+    (code w.render).map (U.eval env) = some (w.readS.eval env) ∧
+    (code w.render).map (U.eval env) = some (w.pieces.any (fun p => p.all (Unit'.val env))) := by
+  rw [parse_render]
+  exact ⟨rfl, by rw [Option.map_some, readS_eval_pieces]⟩
+
+/-- Both orders, spelled out for arbitrary units `p q r` (atoms or parenthesised skeletons):
+    `p and q or r` and `r or p and q` are `(p ∧ q) ∨ r`. -/
+theorem and_over_or_both_orders (p q r : UnitW α) (env : α → Bool) :
+    (code (p.cons .and (q.cons .or r.toW)).render).map (U.eval env) =
+      some ((p.valS env && q.valS env) || r.valS env) ∧
+    (code (r.cons .or (p.cons .and q.toW)).render).map (U.eval env) =
+      some (r.valS env || (p.valS env && q.valS env)) := by
+  rw [parse_render, parse_render]
+  constructor
+  · cases p <;> cases q <;> cases r <;> rfl
+  · cases p <;> cases q <;> cases r <;> rfl
+
+/-! ## clause 1: parentheses group sub-expressions -/
+
+/-- A parenthesised sub-expression is read on its own and used as ONE operand: as the whole
+    query; as right operand of any operator; as left operand of `or`; as left operand of `and`
+    (it joins the first `and`-group of what follows — with a pure `and`-chain: the whole). -/
+theorem paren_groups (g w : W α) (a : Atom α) (o : Op) :
+    code (.lp :: (g.render ++ [.rp])) = code g.render ∧
+    code (.atom a :: .op o :: .lp :: (w.render ++ [.rp])) = (code w.render).map (U.bin o (.atom a)) ∧
+    code (.lp :: (g.render ++ .rp :: .op .or :: w.render)) =
+      (code g.render).bind (fun l => (code w.render).map (U.bin .or l)) ∧
+    (w.hasTopOr = false → code (.lp :: (g.render ++ .rp :: .op .and :: w.render)) =
+      (code g.render).bind (fun l => (code w.render).map (U.bin .and l))) := by
+  refine ⟨?_, ?_, ?_, ?_⟩
+  · exact (parse_render (.grp g)).trans (parse_render g).symm
+  · rw [parse_render w]
+    have := parse_render (.atomOp a o (.grp w))
+    cases o with
+    | or => simpa [W.render] using this
+    | and => rw [readS_atomOp_and_noOr a (.grp w) rfl] at this; simpa [W.render] using this
+  · rw [parse_render g, parse_render w]; exact parse_render (.grpOp g .or w)
+  · intro h
+    rw [parse_render g, parse_render w]
+    have := parse_render (.grpOp g .and w)
+    rw [readS_grpOp_and_noOr g w h] at this
+    exact this
+
+/-- … and in general its content only matters through its value. -/
+theorem paren_content_only_by_value (g g' w : W α) (o : Op) (env : α → Bool)
+    (h : g.readS.eval env = g'.readS.eval env) :
+    (code (W.grpOp g o w).render).map (U.eval env) = (code (W.grpOp g' o w).render).map (U.eval env) := by
+  rw [parse_render, parse_render]
+  have hs : sem env (.grpOp g o w) = sem env (.grpOp g' o w) := by
+    cases o <;> simp [val, h]
+  have h1 := val_eq env (.grpOp g o w)
+  have h2 := val_eq env (.grpOp g' o w)
+  rw [hs] at h1
+  simp only [val] at h1 h2
+  simp [h1, h2]
+
+/-! ## clause 2: chains of a single connective are associative -/
+
+/-- Every bracketing of `u₁ op u₂ op … op uₙ` (units: atoms or arbitrary parenthesised
+    skeletons) evaluates like the flat chain: to the conjunction / disjunction of the units. -/
+theorem chain_assoc (o : Op) (t : BT α) (u : UnitW α) (us : List (UnitW α)) (h : t.leaves = u :: us)
+    (env : α → Bool) :
+    (code (t.toW o).render).map (U.eval env) = some (foldOp o ((u :: us).map (UnitW.valS env))) ∧
+    (code (chain o u us).render).map (U.eval env) = some (foldOp o ((u :: us).map (UnitW.valS env))) := by
+  rw [parse_render, parse_render]
+  simp only [Option.map_some, bracket_evalS, chain_evalS, h]
+  exact ⟨trivial, trivial⟩
+
+/-! ## clause 3: `not (P)` is the negation of P -/
+
+theorem not_paren_negates (w : W α) (env : α → Bool) :
+    code (.not :: .lp :: (w.render ++ [.rp])) = (code w.render).map U.not ∧
+    (code (.not :: .lp :: (w.render ++ [.rp]))).map (U.eval env) =
+      (code w.render).map (fun u => !(u.eval env)) := by
+  have h1 : code (.not :: .lp :: (w.render ++ [.rp])) = some (.not w.readS) :=
+    parse_render (.not (.grp w))
+  rw [h1, parse_render w]
+  exact ⟨rfl, rfl⟩
+
+/-! ## clause 5: redundant parentheses -/
+
+/-- One more pair of parentheses around ANY sub-expression of the intended reading — the whole
+    query, a parenthesised level, the operand of `not`, an operand of `or`, a unit, a run of units
+    inside an `and`-group, a run of whole `and`-groups; at any depth (`Paren`, complete list in
+    StorageModel/C12/Parens.lean) — never changes the result. -/
+theorem redundant_parens {b : Bool} {w w' : W α} (h : Paren b w w') (env : α → Bool) :
+    (code w'.render).map (U.eval env) = (code w.render).map (U.eval env) := by
+  rw [parse_render, parse_render]
+  have := (h.sem_eq env).1
+  simp only [val] at this
+  simp [this]
+
+/-- For the pairs that do not regroup a chain the tree itself is unchanged. -/
+theorem redundant_parens_same_tree {b : Bool} {w w' : W α} (h : RP b w w') :
+    code w'.render = code w.render := by
+  rw [parse_render, parse_render, h.readGo_eq.1]
+
+/-- non-vacuity: `a and b or c` ↦ `(a and b) or c`;  `a or b and c` ↦ `a or (b and c)`;
+    `x and a and b or c` ↦ `x and (a and b) or c` -/
+example : Paren true (W.atomOp (.sym 0) .and (.atomOp (.sym 1) .or (.atom (.sym 2))))
+    (W.grpOp (.atomOp (.sym 0) .and (.atom (.sym 1))) .or (.atom (.sym 2))) :=
+  .runOr (.atomOp (.sym 0) .and (.atom (.sym 1))) (.atom (.sym 2)) rfl
+example : Paren true (W.atomOp (.sym 0) .or (.atomOp (.sym 1) .and (.atom (.sym 2))))
+    (W.atomOp (.sym 0) .or (.grp (.atomOp (.sym 1) .and (.atom (.sym 2))))) :=
+  .atomOrTail _ _ _ _ (.whole _)
+example : Paren true (W.atomOp (.sym 9) .and (.atomOp (.sym 0) .and (.atomOp (.sym 1) .or (.atom (.sym 2)))))
+    (W.atomOp (.sym 9) .and (.grpOp (.atomOp (.sym 0) .and (.atom (.sym 1))) .or (.atom (.sym 2)))) :=
+  .atomAndTail _ _ _ _ (.runOrIn false (.atomOp (.sym 0) .and (.atom (.sym 1))) (.atom (.sym 2)) rfl rfl)
+
+/-! ## clause 6: keyword case and whitespace (lexer level) -/
+
+/-- However the keywords are cased (any mask of upper-case letters) and however much whitespace
+    (blank, tab, CR, LF) is put wherever the grammar allows it — at least one where it demands
+    `WS+` — the lexer + whitespace rules yield the same token skeleton.  `Generated.keywords`
+    is the table regenerated from ZitiQl.g4. -/
+theorem respell_invariant (ts : List (Tok (List Char) × Spell)) (trail : List Char)
+    (h : SpellOk none ts trail) :
+    lexSkeleton Generated.keywords (renderChars ts trail) = some (ts.map (·.1)) := by
+  rw [keywords_are_expected.1]
+  exact lexSkeleton_render ts trail h
+
+/-- Hence two spellings of the same skeleton are the same query. -/
+theorem respelled_query_same_result (ts ts' : List (Tok (List Char) × Spell)) (trail trail' : List Char)
+    (h : SpellOk none ts trail) (h' : SpellOk none ts' trail') (hsame : ts.map (·.1) = ts'.map (·.1))
+    (isBool : List Char → Bool) :
+    (lexSkeleton Generated.keywords (renderChars ts trail)).map (query L G isBool) =
+      (lexSkeleton Generated.keywords (renderChars ts' trail')).map (query L G isBool) := by
+  rw [respell_invariant ts trail h, respell_invariant ts' trail' h', hsame]
+
+/-- non-vacuity: `( pa AnD\tNOT  pb )\n` is an admitted spelling of `( pa and not pb )` -/
+example : SpellOk none
+    [(.lp, ⟨[], []⟩), (.atom (.sym ['p', 'a']), ⟨[' '], []⟩), (.op .and, ⟨[' '], [true, false, true]⟩),
+     (.not, ⟨['\t'], [true, true, true]⟩), (.atom (.sym ['p', 'b']), ⟨[' ', ' '], []⟩), (.rp, ⟨[' '], []⟩)]
+    ['\n'] := by
+  simp only [SpellOk, TokOk, AtomWord]
+  decide
+
+/-! ## the spec itself, and the executable reader of the driver -/
+
+/-- The intended reading without trees: a skeleton is true iff one of its `or`-separated pieces
+    has all of its `and`-joined units true (units: atoms, parenthesised skeletons, a trailing
+    `not <rest>`). -/
+theorem spec_is_dnf (w : W α) (env : α → Bool) :
+    w.readS.eval env = w.pieces.any (fun p => p.all (Unit'.val env)) :=
+  readS_eval_pieces env w
+
+/-- the reader used by the driver's spec mode inverts `render` … -/
+theorem readTokens_render (w : W α) : readTokens w.render = some w := readTokens_render' w
+
+/-- … and the code accepts exactly the token lists that are skeletons. -/
+theorem accept_agree (ts : List (Tok α)) : (code ts).isSome = (readTokens ts).isSome := by
+  cases hc : code ts with
+  | some u =>
+    obtain ⟨w, rfl, _⟩ := parse_sound ts u hc
+    simp [readTokens_render']
+  | none =>
+    cases hr : readTokens ts with
+    | none => rfl
+    | some w =>
+      have := readTokens_sound ts w hr
+      subst this
+      rw [parse_render w] at hc
+      simp at hc
+
+/-! ## what the numbers mean (illustrations on the model, not property theorems) -/
+
+/-- the numbers ANTLR would generate for the ordinary binary form `boolExpr WS+ AND WS+ boolExpr` -/
+def binaryFormNums : ParserNums :=
+  { andPrec := 6, andRight := 7, andLoop := false, orPrec := 5, orRight := 6, orLoop := false,
+    notLevel := 1, groupLevel := 0, startLevel := 0 }
+
+/-- with them already the plain listener groups `a and b or c` as intended (chains nest left) -/
+example : untyped binaryFormNums [.atom (.sym 0), .op .and, .atom (.sym 1), .op .or, .atom (.sym 2)] =
+    some (.bin .or (.bin .and (.atom (.sym 0)) (.atom (.sym 1))) (.atom (.sym 2))) := by decide
+example : untyped binaryFormNums [.atom (.sym 0), .op .or, .atom (.sym 1), .op .and, .atom (.sym 2)] =
+    some (.bin .or (.atom (.sym 0)) (.bin .and (.atom (.sym 1)) (.atom (.sym 2)))) := by decide
+
+/-- Keeping the suffix-loop form and only raising the operand levels would NOT do: an `AndExpr`
+    context would then have three operands for `a and b and c`, `ExitAndExpr` pops two, and the
+    first operand is silently lost (the stack discipline theorem depends on `parser_is_greedy`). -/
+example : untyped { binaryFormNums with andLoop := true, orLoop := true }
+    [.atom (.sym 0), .op .and, .atom (.sym 1), .op .and, .atom (.sym 2)] =
+    some (.bin .and (.atom (.sym 1)) (.atom (.sym 2))) := by decide
+
+/-! ## the listener of the pinned tree (before fix c2dd0be) — why the fix was needed -/
+
+/-- the model with the old listener -/
+abbrev pinned (ts : List (Tok α)) : Option (U α) := untypedL pinnedShape G ts
+
+theorem pinned_eq (ts : List (Tok α)) : pinned ts = untyped G ts := by
+  simp [pinned, untypedL, pinnedShape, repairedShape]
+
+/-- `P and Q or R` with P false and R true: the pinned tree answered false, the intended answer
+    (and the answer of the current code) is true. -/
+theorem pinned_listener_violates :
+    (pinned [Tok.atom (Atom.sym 0), .op .and, .atom (.sym 1), .op .or, .atom (.sym 2)]).map
+        (U.eval (fun i => i == 2)) = some false ∧
+    (code [Tok.atom (Atom.sym 0), .op .and, .atom (.sym 1), .op .or, .atom (.sym 2)]).map
+        (U.eval (fun i => i == 2)) = some true := by
+  constructor
+  · rw [pinned_eq]; decide
+  · rw [code_eq]; decide
+
+/-- Exactly which skeletons were affected: the pinned listener built the tree `readM` (each
+    operator takes the rest of its level), which is the intended tree iff no `and` had an
+    unparenthesised `or` to its right on the same level (`W.ordered`) … -/
+theorem pinned_listener_exact (w : W α) :
+    (pinned w.render = some w.readM) ∧ (pinned w.render = some w.readS ↔ w.ordered = true) := by
+  rw [pinned_eq, untyped_render G parser_is_greedy w]
+  refine ⟨rfl, ?_, ?_⟩
+  · intro h; exact ordered_of_readM_eq_readS w (Option.some.inj h)
+  · intro h; rw [readM_eq_readS_of_ordered w h]
+
+/-- … and over pairwise distinct symbols: some truth assignment got a wrong answer iff the
+    skeleton is not `ordered`. -/
+theorem pinned_listener_fails_exactly [DecidableEq α] (w : W α) (hd : w.Distinct) :
+    (∃ env : α → Bool, (pinned w.render).map (U.eval env) ≠ some (w.readS.eval env)) ↔
+      w.ordered = false := by
+  rw [pinned_eq, untyped_render G parser_is_greedy w]
+  constructor
+  · rintro ⟨env, h⟩
+    cases ho : w.ordered with
+    | false => rfl
+    | true =>
+      rw [readM_eq_readS_of_ordered w ho] at h
+      exact absurd rfl h
+  · intro hn
+    obtain ⟨env, h⟩ := not_ordered_differs w hd hn
+    exact ⟨env, by simpa using h⟩
+
+end StorageModel.Properties.C12
+
+#print axioms StorageModel.Properties.C12.parse_render
+#print axioms StorageModel.Properties.C12.and_over_or
+#print axioms StorageModel.Properties.C12.redundant_parens
+#print axioms StorageModel.Properties.C12.respell_invariant
